@@ -18,11 +18,12 @@ RULE = ('split: every valid signature of <=4 (quick) / <=5 (thorough) characters
         '(3) subclass instances fitting the first element type; oracle: sigFromPy is one complete type, wrappers '
         'select their code, marshal("v") succeeds and unmarshal returns an equal value (Python ==); infer_long: wide structs '
         'whose inferred signature has exactly 250..255 characters. Non-trivial: '
-        'signature contains a container / value contains a container with >=2 elements; distinct = distinct case JSON.')
+        'signature contains a container / value contains a container with >=2 elements; distinct = distinct case JSON. Dict keys: str, '
+        'int, float, bool and every wrapper class (integers, ObjectPath, Signature).')
 ASSUMPTIONS = [
     'containers whose elements share a Python class but not a D-Bus type are outside the claim and not generated',
-    'plain ints stay within int32; NaN is not generated (Python equality is the stated oracle); dict keys are all '
-    'str or all int',
+    'plain ints stay within int32; NaN is not generated (Python equality is the stated oracle); the keys of one dict are all of '
+    'one kind (str, int, float, bool or one wrapper class)',
 ]
 
 FULL = 'ybnqiuxtdsoghva(){}'
@@ -164,6 +165,21 @@ _i32 = st.one_of(st.sampled_from([0, 1, -1, 2**31 - 1, -2**31, 255, 256]), st.in
 _flt = st.floats(allow_nan=False).map(lambda f: struct.pack('>d', f).hex())
 
 
+# every basic type may key a dict: plain str / int / float / bool and each wrapper class (DBus: y b n q i u x t d s o g)
+KEY_SHAPES = [['str'], ['int'], ['str'], ['int'], ['float'], ['bool']] + [['w', c] for c in WRAP_INT + 'go']
+
+
+def _key_id(node):
+    return (node[0], node[-1])
+
+
+@st.composite
+def _keys(draw, ksh, n):
+    if ksh == ['bool']:
+        n = min(n, 2)
+    return draw(st.lists(inst(ksh), min_size=n, max_size=n, unique_by=_key_id))
+
+
 @st.composite
 def shape(draw, depth):
     """A template all of whose instances share one D-Bus type."""
@@ -178,7 +194,7 @@ def shape(draw, depth):
     if k == 'tuple':
         return ['tuple', [draw(shape(depth - 1)) for _ in range(draw(st.integers(1, 3)))]]
     if k == 'dict':
-        return ['dict', draw(st.sampled_from(['str', 'int'])), draw(shape(depth - 1))]
+        return ['dict', draw(st.sampled_from(KEY_SHAPES)), draw(shape(depth - 1))]
     return [k]
 
 
@@ -211,7 +227,7 @@ def inst(draw, sh):
         return ['tuple', [draw(inst(s)) for s in sh[1]]]
     if k == 'dict':
         n = draw(st.integers(1, 3))
-        ks = draw(st.lists(inst([sh[1]]), min_size=n, max_size=n, unique_by=lambda x: x[1]))
+        ks = draw(_keys(sh[1], n))
         return ['dict', [[kk, draw(inst(sh[2]))] for kk in ks]]
     raise ValueError(sh)
 
@@ -268,8 +284,7 @@ def pv(draw, depth=2):
         els = [first] + [draw(rest) for _ in range(n - 1)]
     if cont == 'list':
         return ['list', els]
-    kk = draw(st.sampled_from(['str', 'int']))
-    ks = draw(st.lists(inst([kk]), min_size=len(els), max_size=len(els), unique_by=lambda x: x[1]))
+    ks = draw(_keys(draw(st.sampled_from(KEY_SHAPES)), len(els)))
     return ['dict', [[k, v] for k, v in zip(ks, els)]]
 
 
